@@ -13,7 +13,8 @@ RULE = ("bounded-exhaustive: identity hashes (boundary / unreduced / top-bit pat
         "(<= 2 thorough) in the first 8 digit requests; a recording hash callback captures exactly what encrypt and decrypt feed it. oracle: the two byte strings are "
         "identical and equal compress(Q_id) || compress(rP) || big-endian(e(sQ_id, rP)) recomputed through the library's C++ pairing (and by the Python model with chosen "
         "discrete logs on a subset); keygen = [s]Q_id by Python double-and-add; length and output pointer passed through unchanged; negatives: other identity, other "
-        "master scalar (mod r), ciphertext + G2 give different hashed bytes. non-trivial = any case (no trivial inputs)")
+        "master scalar (mod r), ciphertext + G2 give different hashed bytes; identity histories: for EVERY ordered pair of identity hashes that differ in one byte "
+        "(at byte 0, 7, 8, 9, 23, 24 or 47) the second identity computed right after the first is the model's point of its own 48 bytes. non-trivial = any case")
 ASSUMPTIONS = ["single pairings are decided by C01, hash-to-curve by C10", "the hash function is the caller's: only its input and the pass-through of (pointer, length) are checked"]
 CONFIGS = ["asm", "c64", "c32"]
 X = ref.X_ABS
@@ -180,11 +181,61 @@ def sequences(seed, tier):
 def shards(ctx):
     for c in CONFIGS:
         build.build(c)
-    return [{"part": k, "parts": 16} for k in range(16)]
+    return [{"part": k, "parts": 16} for k in range(16)] + [{"sub": "id-history", "cfg": c} for c in CONFIGS]
+
+
+ID_FLIP_POSITIONS = [0, 7, 8, 9, 23, 24, 47]
+_ID_MODEL = {}
+
+
+def id_menu(seed):
+    """identity hashes that agree on long prefixes / suffixes: one base string and the same string with one byte changed at every word
+    boundary position (the identity must be bound to ALL 48 bytes)"""
+    base = bytearray(alpha.filler(seed, "c16idh", 0, 384).to_bytes(48, "big"))
+    base[0] &= 0x0F
+    out = [bytes(base)]
+    for pos in ID_FLIP_POSITIONS:
+        b = bytearray(base)
+        b[pos] ^= 0x01 if pos else 0x10
+        out.append(bytes(b))
+    return out
+
+
+def id_model(h):
+    if h not in _ID_MODEL:
+        P, _ = ref.hash_to_curve(h, 1)
+        _ID_MODEL[h] = ref.pt_mul(P, ref.G1_COFACTOR, 1)
+    return _ID_MODEL[h]
+
+
+def eval_id_history(case):
+    """results depend on the arguments only: compute_id_from_hash(h2) right after compute_id_from_hash(h1), for EVERY ordered pair of the
+    menu, is the model's point for h2; keys and hashed bytes for h2 are the ones of h2"""
+    L = ffi.lib(case["cfg"])
+    msgs = []
+    hs = [bytes.fromhex(x) for x in case["pair"]]
+    out = None
+    # the history is made self-contained: it starts with an identity that shares no byte with the menu, so that whatever an earlier
+    # call may have left behind is displaced and a replay sees the same sequence of arguments
+    L.out("embedded_pairing_lqibe_compute_id_from_hash", L.size["lq_id"], bytes([0x0A] + [0xA5] * 47))
+    for h in hs:
+        out = L.out("embedded_pairing_lqibe_compute_id_from_hash", L.size["lq_id"], h)
+    if L.unaff(out, 1) != id_model(hs[-1]):
+        msgs.append("compute_id_from_hash(%s..) called right after the identity %s.. does not return the point of its own argument" % (hs[-1].hex()[:20], hs[0].hex()[:20]))
+    return msgs
 
 
 def run_shard(ctx, shard):
     seed = ctx.seed
+    if shard.get("sub") == "id-history":
+        menu = id_menu(seed)
+        for h1, h2 in itertools.product(menu, menu):
+            case = {"sub": "id-history", "cfg": shard["cfg"], "pair": [h1.hex(), h2.hex()]}
+            msgs = eval_id_history(case)
+            ctx.ok(h1 != h2, "lq:id-history")
+            if msgs:
+                ctx.fail(case, msgs[0], sig="lq:id-history")
+        return
     ids = id_hashes(seed, ctx.tier)
     ss = master_scalars(seed)
     default, seqs = sequences(seed, ctx.tier)
@@ -210,11 +261,13 @@ def run_shard(ctx, shard):
 
 
 def replay(ctx, case):
+    if case.get("sub") == "id-history":
+        return eval_id_history(case)
     return eval_case(case)
 
 
 def finish(merged, cov):
-    for need in ("lq:product", "lq:stream-deviation", "lq:product:identity-point"):
+    for need in ("lq:product", "lq:stream-deviation", "lq:product:identity-point", "lq:id-history"):
         if not merged.outcomes.get(need):
             return "class %s never exercised" % need
     cov["states"] = merged.evaluations
